@@ -76,6 +76,8 @@ def resolve_call(sym, mod, call, within=None, extra=None):
                 if c is not None and isinstance(r, ClassInfo) and c.kind == 'func':
                     # Cls.method(...) unbound or static
                     c.cls = r
+                elif c is not None and isinstance(r, tuple) and r[0] == 'value' and c.kind == 'func':
+                    c.kind = 'method'   # bound method of a module-level instance
                 return c
     return None
 
